@@ -172,15 +172,34 @@ class Init(_NoReplay):
     """lane i = target.generate(constraints, *target_args) (default) or proposal.simulate -> merge with the
     constraints -> target.generate(merged) with log w = w_target + (-log q) (custom proposal)"""
 
-    cases = ["default_proposal", "custom_proposal"]
+    cases = ["default_proposal", "custom_proposal", "custom_proposal:nested_dict_choice_maps"]
 
     def call(self, case):
         reset()
         self.n = n_sym()
         self.g = AbsGF("target")
-        self.q = AbsGF("proposal") if case == "custom_proposal" else None
+        self.q = AbsGF("proposal") if case.startswith("custom_proposal") else None
         self.targs = (value("t0"), value("t1"))
         self.c = value("constraints")
+        if "nested_dict" in case:
+            # hierarchical choice maps as plain nested dicts: the proposal proposes {"a": .., "s": {"z": ..}}, the
+            # observations constrain {"s": {"y": ..}} - the SAME sub-call "s" on both sides.  The target is an `Fn`
+            # as far as merging goes (its merge is the real, recursive Fn.merge, itself under contract)
+            outer = self
+            A, Z = (z3.Function(engine().fresh_name(nm), V, V) for nm in ("prop_a", "prop_z"))
+            self.A, self.Z = A, Z
+            dummy_fn = core.Fn(core.Const(lambda: None))
+            self.g.merge = lambda x, x_, check=None: (self.g.calls.append(("merge", (x, x_, check), {})), core.Fn.merge(dummy_fn, x, x_, check))[1]
+            real_sim = self.q.simulate
+
+            def simulate(*args, **kwargs):
+                tr = real_sim(*args, **kwargs)
+                d = tr.x.e
+                return AbsTrace(self.q, tr.args, {"a": Sym(A(d)), "s": {"z": Sym(Z(d))}}, tr.retval, tr.score)
+
+            self.q.simulate = simulate
+            self.y = value("y_obs")
+            self.c = {"s": {"y": self.y}}
         return self.real(self.fn, self.g, self.targs, core.Const(Sym(self.n)), self.c, self.q)
 
     def ensures(self, case, path):
@@ -200,6 +219,20 @@ class Init(_NoReplay):
             nu = LaneNonce(z3.IntVal(1), i)
             yield "lane_weight_is_targets_generate_weight_for_the_constraints", z3.Implies(rng, p.log_weights.fn((i,)) == g.GenW(a, self.c.e, nu))
             yield "lane_trace_is_the_generated_trace", z3.Implies(rng, p.traces.x.fn((i,)) == g.GenX(a, self.c.e, nu))
+        elif "nested_dict" in case:
+            aq = enc_args((self.c,) + self.targs, {})
+            gen = [c for c in g.calls if c[0] == "generate"]
+            yield "target_generates_once_per_lane", len(gen) == 1
+            if len(gen) != 1:
+                return
+            m = gen[0][1][0]
+            lanev = vc[0]["lane"] if len(vc) == 1 else None
+            d = q.DrawF(aq, LaneNonce(z3.IntVal(1), lanev)) if lanev is not None else None
+            ok_shape = isinstance(m, dict) and set(m) == {"a", "s"} and isinstance(m.get("s"), dict) and set(m["s"]) == {"z", "y"}
+            yield "target_generates_on_the_DEEP_merge_of_proposed_choices_and_constraints(keys)", ok_shape
+            if ok_shape and d is not None:
+                yield "proposed_latents_inside_a_shared_sub_call_are_kept", z3.And(same(m["a"], Sym(self.A(d))), same(m["s"]["z"], Sym(self.Z(d))))
+                yield "constraints_are_kept", same(m["s"]["y"], self.y)
         else:
             aq = enc_args((self.c,) + self.targs, {})
             nu1, nu2 = LaneNonce(z3.IntVal(1), i), LaneNonce(z3.IntVal(2), i)
